@@ -439,6 +439,18 @@ func solve(query string, timeoutS int, all bool, useCvc5 bool) (SolveResult, err
 // splitAnd returns the top-level conjuncts of an SMT term.
 func splitAnd(t string) []string {
 	t = strings.TrimSpace(t)
+	if strings.HasPrefix(t, "(=> ") {
+		// distribute an implication over the conjuncts of its consequent
+		parts := splitTop(t[4 : len(t)-1])
+		if len(parts) == 2 && strings.HasPrefix(parts[1], "(and ") {
+			var out []string
+			for _, c := range splitAnd(parts[1]) {
+				out = append(out, "(=> "+parts[0]+" "+c+")")
+			}
+			return out
+		}
+		return []string{t}
+	}
 	if !strings.HasPrefix(t, "(and ") {
 		return []string{t}
 	}
@@ -465,4 +477,47 @@ func splitAnd(t string) []string {
 		out = append(out, splitAnd(p)...)
 	}
 	return out
+}
+
+func splitTop(body string) []string {
+	var out []string
+	depth, start := 0, 0
+	for i := 0; i < len(body); i++ {
+		switch body[i] {
+		case '(':
+			depth++
+		case ')':
+			depth--
+		case ' ':
+			if depth == 0 {
+				if p := strings.TrimSpace(body[start:i]); p != "" {
+					out = append(out, p)
+				}
+				start = i + 1
+			}
+		}
+	}
+	if p := strings.TrimSpace(body[start:]); p != "" {
+		out = append(out, p)
+	}
+	return out
+}
+
+// selStore builds (select h i), resolving it syntactically when h is a chain
+// of stores whose innermost matching index is textually i: the normal form
+// lets lemma instances (which are matched by text) line up.
+func selStore(h, i string) string {
+	cur := strings.TrimSpace(h)
+	for strings.HasPrefix(cur, "(store ") {
+		parts := splitTop(cur[7 : len(cur)-1])
+		if len(parts) != 3 {
+			break
+		}
+		if parts[1] == i {
+			return parts[2]
+		}
+		// a different index text may still denote the same object: stop here
+		break
+	}
+	return app("select", h, i)
 }
